@@ -69,8 +69,8 @@ PROPS = {
  'C11': dict(pats=[R + CK + r'\.(lazyI?OR\w*|computeCardinality|resetTo|toEfficientContainer\w*|ior\w*|or\w*|iand\w*|and\w*|ixor\w*|xor\w*)$', R + r'(FastOr|FastAnd|HeapOr|HeapXor|lazyOR|lazyIOR|lazyOrOnRange|lazyIOrOnRange|parNaiveStartAt|repairAfterLazy|toBitmapContainer)\w*$', R + r'(bitmapContainerHeap|containerPriorityQueue|priorityQueue)\.\w+$', R + r'arrayContainer\.realloc$'] + BM(r'lazyOR|lazyor|AndAny|repairAfterLazy'),
              note='Kernels the sequential aggregates are folds of: lazy union kernels (deferred cardinality) and the repair pass, per container pairing.'),
  'C13': dict(pats=FROZEN + [R + r'lemma_(tcnt|fzsum|fz)\w+$'], note='Frozen-format reader (safety and structure) and writers where contracted.'),
- 'C14': dict(pats=SIZES + [R + CK + r'\.toEfficientContainer\w*$', R + r'(BoundSerializedSizeInBytes|lemma_\w*[sS]ize\w*)$'] + BM(r'GetSerializedSizeInBytes|BoundSerializedSizeInBytes'),
-             note='Size formulas per representation and the cheapest-representation choice.'),
+ 'C14': dict(pats=SIZES + [R + CK + r'\.toEfficientContainer\w*$', R + r'(BoundSerializedSizeInBytes|lemma_\w*[sS]ize\w*)$'] + BM(r'GetSerializedSizeInBytes|BoundSerializedSizeInBytes|Add|CheckedAdd|Remove|CheckedRemove|AddRange|RemoveRange|Flip|FlipInt|AddMany|RunOptimize|AndNot|And|Or|Xor') + [R + r'(And|Or|Xor|AndNot|Flip)$'],
+             note='Size formulas per representation, the cheapest-representation choice, the lemma chain to the documented bound, and the normal-form (cheapest representation) clauses of the Bitmap-level mutators that have contracts.'),
  'C15': dict(pats=NEIGH + SETUTIL[:1] + [R + r'runContainer16\.(safeMinimum|safeMaximum)$'] + BM(r'NextValue|PreviousValue|NextAbsentValue|PreviousAbsentValue'), note='Neighbour queries per container kind against the view (least member >= t, greatest member <= t, and the absent variants), with the sentinel conventions the Bitmap-level callers test for.'),
  'C16': dict(pats=[R + CK + r'\.addOffset$', R + r'(AddOffset\w*|Flip|FromDense|FromBitSet)$'] + BM(r'ToDense|WriteDenseTo|DenseSize|FromDense|ToBitSet|FromBitSet'), note='Per-kind offset kernels and dense conversions.'),
  'C17': dict(pats=[r'^roaring64\.(?!Bitmap\.(ReadFrom|FromUnsafeBytes|UnmarshalBinary|FromBase64|WriteTo|ToBytes|MarshalBinary)$)(?!BSI|roaringArray64\.validate$|bsi)\w+(\.\w+)?$'], note='64-bit chunk table (keys, buckets, copy-on-write flags) and the Bitmap methods that have contracts.'),
